@@ -203,6 +203,24 @@ def check_text(data: dict, lab: Labels) -> None:
                 require(ok4, "whitespace-changes-acceptance", f"{spaced!r:.300}")
                 require(pattern_behaviour(m4, roots) == base, "whitespace-changes-meaning", f"{spaced!r:.300}")
                 lab.tag("whitespace-variant")
+            # definitions that pass the grammar but are rejected for their meaning, using this text's own
+            # capture names, leave nothing behind: the text is accepted again and a variable that has
+            # no capture is still refused
+            caps = _re.findall(r"->\s*([a-z_][a-z0-9_]*)", _re.sub(r'"(?:[^"\\]|\\.)*"', '""', text))
+            name = caps[data.get("blank_at", 0) % len(caps)] if caps else "zz"
+            poisons = [f"(* @v -> {name} @v -> {name})", f"(* @v -> {name} @v=$nosuchvar)",
+                       f"(* @v -> {name} @v=(NoSuchClassAnywhere))", f"(* @items=[(*) -> {name} (NoSuchClassAnywhere)])"]
+            poison = poisons[data.get("blank_at", 0) // 7 % len(poisons)]
+            okp, _mp = compile_pattern(poison)
+            require(not okp, "illformed-text-accepted", f"{poison!r}")
+            PM._MATCHER_CACHE.clear()
+            ok5, m5 = compile_pattern(text)
+            require(ok5, "acceptance-depends-on-compile-history", f"{text!r:.200} after the rejected {poison!r}")
+            require(pattern_behaviour(m5, roots) == base, "behaviour-depends-on-compile-history", f"{text!r:.200} after {poison!r}")
+            compile_pattern(poison)
+            okq, _mq = compile_pattern(f"(* @v=${name})")
+            require(not okq, "illformed-text-accepted", f"variable without capture after the rejected {poison!r}: (* @v=${name})")
+            lab.tag("after-semantically-rejected-definition")
     else:
         x = compile_xpath(text)
         ok = x is not None
@@ -284,8 +302,20 @@ def st_texts(ctx: Ctx):
         ("syntax", "(LeafA"), ("syntax", "LeafA)"), ("syntax", "(LeafA @)"), ("syntax", "(* | LeafA)"), ("syntax", ""),
         ("syntax", "(LeafA @v -> A)"), ("syntax", "(LeafA @v -> a_)"), ("syntax", "(LeafA @v = )"),
     ]).map(lambda t: {"kind": "illformed", "lang": "pattern", "text": t[1], "expect": "reject", "why": t[0]})
-    regex_bad = st.sampled_from(['(LeafA @v="[")', '(LeafA @v="(")', '(Strs @a="*a")']).map(
+    regex_bad = st.sampled_from(['(LeafA @v="[")', '(LeafA @v="(")', '(Strs @a="*a")',
+                                 # regexes the re module refuses with something else than re.error
+                                 '(LeafA @v="a{4294967296}")', '(LeafA @v="a{99999999999999999999}")',
+                                 '(Strs @a="' + "(" * 3000 + ")" * 3000 + '")', '(Strs @a="(?P<n>a)(?P<n>b)")',
+                                 '(Strs @a="\\")', '(Strs @a="(?z)")', '(Strs @a="[b-a]")', '(Strs @a="a**")',
+                                 '(Strs @a="\\N{NO SUCH NAME}")', '(Strs @a="(?<=a*)b")']).map(
         lambda t: {"kind": "bad-regex", "lang": "pattern", "text": t, "expect": None})
+    # very deep, narrow definitions (far beyond what a recursive interpreter survives)
+    deep_pat = st.tuples(st.sampled_from([60, 130, 150, 400, 1500]), st.sampled_from(["child", "items"])).map(
+        lambda t: {"kind": "deep", "lang": "pattern", "expect": None,
+                   "text": ("(Mixed @child=" * t[0] + "(*)" + ")" * t[0]) if t[1] == "child" else
+                           ("(Mixed @items=[" * t[0] + "(*)" + "])" * t[0])})
+    deep_xp = st.sampled_from([200, 1200, 4000]).map(
+        lambda n: {"kind": "deep", "lang": "xpath", "expect": None, "text": "/Mixed" * n + "/LeafA"})
     ill_xp = st.sampled_from([
         ("unknown class", "//Nope"), ("unknown class", "/Mixed/@items[0]Nope"), ("non-node class", "//CodeOrigin"),
         ("non-node class", "/Source"), ("non-node class", "//Mixed/MultiOrigin"), ("syntax", "//"), ("syntax", "/"),
@@ -299,7 +329,8 @@ def st_texts(ctx: Ctx):
     uni = st.tuples(st.text(max_size=20).filter(lambda s: all(not 0xD800 <= ord(c) <= 0xDFFF for c in s)),
                     st.sampled_from(["pattern", "xpath"])).map(
         lambda t: {"kind": "unicode", "lang": t[1], "text": t[0], "expect": None})
-    return st.one_of(pat, pat, pat, xp, xp, ill_pat, ill_xp, regex_bad, rnd_pat, rnd_xp, uni)
+    return st.one_of(pat, pat, pat, pat, xp, xp, xp, ill_pat, ill_xp, regex_bad, rnd_pat, rnd_xp, uni,
+                     st.one_of(deep_pat, deep_pat, deep_xp, regex_bad))
 
 
 # ------------------------------------------------------------------------------ atheris
